@@ -446,6 +446,7 @@ typedef struct {
 	uint64_t tx_key, rx_key;
 	size_t tx_done, rx_done;
 	int ever_sendapp, ever_recvapp;
+	int closed_kx_seen;
 	size_t pending_ack;      /* bytes handed to the transport but not yet acknowledged to the engine (completion-style I/O) */
 	const unsigned char *in_hi, *out_lo;   /* engine-split single buffer: highest end of an input region / lowest start of an output region seen */
 	size_t bytes_out, bytes_in;        /* record bytes moved */
@@ -505,6 +506,7 @@ tp_ep_start(tp_ep *ep, const tp_cfg *cfg)
 	ep->closed_seen = 0;
 	ep->tx_done = ep->rx_done = 0;
 	ep->ever_sendapp = ep->ever_recvapp = 0;
+	ep->closed_kx_seen = 0;
 	ep->in_hi = ep->out_lo = NULL;
 	ep->pending_ack = 0;
 	ep->bytes_in = ep->bytes_out = 0;
@@ -744,6 +746,22 @@ tp_check(tp_ep *ep, const char *call)
 			if (p1 && (ep->out_lo == NULL || p1 < ep->out_lo)) ep->out_lo = p1;
 			if (p3 && (ep->out_lo == NULL || p3 < ep->out_lo)) ep->out_lo = p3;
 			TP_C06(ep->in_hi == NULL || ep->out_lo == NULL || ep->in_hi <= ep->out_lo, "input-region-reaches-into-output-part");
+		}
+	}
+	/* br_ssl_key_export() while SENDAPP is offered (every 16th such call: it costs a PRF): the engine is connected, the
+	   export must be granted.  What the call answers on closed or failed engines is not part of any property here
+	   (the header says 0; the code tests application_data only, which a failure does not clear): counted, not judged */
+	{
+		static unsigned kx_tick;
+		unsigned char kx[20];
+		if ((st & BR_SSL_SENDAPP) && (kx_tick ++ & 15) == 0) {
+			TP_C06(br_ssl_key_export(e, kx, sizeof kx, "EXPORTER-verif-state", NULL, 0) == 1, "key-export-refused-in-application-data-state");
+			vf_stat("c06_key_export_grants_checked", 1);
+		} else if ((st & BR_SSL_CLOSED) && !ep->closed_kx_seen) {
+			ep->closed_kx_seen = 1;
+			vf_stat(br_ssl_key_export(e, kx, sizeof kx, "EXPORTER-verif-state", NULL, 0)
+				? (err ? "unjudged_key_export_granted_on_failed_engine" : "unjudged_key_export_granted_on_closed_engine")
+				: "unjudged_key_export_refused_on_closed_engine", 1);
 		}
 	}
 #undef TP_C06
